@@ -912,6 +912,14 @@ class Gen:
             elif n["k"] == "StmtMacro" and n["a"]["mac"] in ("debug", "trace", "info", "warn", "tracing::debug", "tracing::trace"):
                 ed.delete(n["s"], n["e"], ("rule", "R8"))
                 self.fired("R8")
+            elif n["k"] == "Macro" and n["a"]["mac"] in ("lossy_string", "crate::lossy_string"):
+                # crate macro `lossy_string!(E)` == String::from_utf8_lossy(E).to_string()
+                arg = kids(n, "macarg")
+                if len(arg) != 1:
+                    raise Inconclusive("unsupported construct: lossy_string! shape")
+                ed.replace(n["s"], arg[0]["s"], "__lossy(", ("rule", "R8-lossy"))
+                ed.replace(arg[0]["e"], n["e"], ")", ("rule", "R8-lossy"))
+                self.fired("R8-lossy")
             elif n["k"] == "Macro" and n["a"]["mac"] in ("anyhow::bail", "bail"):
                 ed.replace(n["s"], n["e"], "return Err(anyhow::__opaque_error())", ("rule", "R8"))
                 self.fired("R8")
@@ -1005,6 +1013,23 @@ class Gen:
                 ed.replace(p["e"], B["s"], ") => ", ("rule", "R17"))
                 ed.replace(B["e"], n["e"], f", None => {dflt} }})", ("rule", "R17"))
                 self.fired("R17")
+
+        # R28: str predicates that are generic over `Pattern` (no assume_specification possible): with a char or
+        #      string LITERAL argument they become calls of prelude helpers with exact specs over Seq<char>
+        for n in walk(body):
+            if n["k"] == "MethodCall" and n["a"]["method"] in ("starts_with", "ends_with", "strip_prefix", "strip_suffix", "contains") \
+                    and len(kids(n, "arg")) == 1 and kids(n, "arg")[0]["k"] == "Lit":
+                if any(a0 <= n["s"] and n["e"] <= b0 for a0, b0 in dead):
+                    continue
+                lit = kids(n, "arg")[0]
+                kind = "char" if lit["a"]["lit"].startswith("'") else ("str" if lit["a"]["lit"].startswith('"') else None)
+                if kind is None:
+                    continue
+                X = kid(n, "receiver")
+                ed.replace(n["s"], X["s"], f"__str_{n['a']['method']}_{kind}(&", ("rule", "R28"))
+                ed.replace(X["e"], lit["s"], ", ", ("rule", "R28"))
+                ed.replace(lit["e"], n["e"], ")", ("rule", "R28"))
+                self.fired("R28")
 
         # R15: X.clone().or_else(|| Y.clone())  ->  __clone_or_else(&X, &Y)   (X, Y verbatim)
         # R14: V.extend(E)                       ->  __vec_extend(&mut V, E)
@@ -1459,7 +1484,8 @@ class Gen:
                 self.emit_expr(it)
             elif it["kind"] == "fn":
                 self.emit_fn(it)
-                if self.vacuity and not it["external"]:
+                if self.vacuity and not it["external"] and it.get("_implkey") is None:
+                    # (methods kept inside a trait impl get no vacuity copy: a trait impl cannot hold extra methods)
                     self.vac = True
                     try:
                         self.emit_fn(it)
@@ -1523,11 +1549,11 @@ def scan_trusted(text):
     return found
 
 
-def run_verus(text, table, outpath, rlimit=None, extra=()):
+def run_verus(text, table, outpath, rlimit=None, extra=(), multiple_errors=50):
     os.makedirs(os.path.dirname(outpath), exist_ok=True)
     with open(outpath, "w") as f:
         f.write(text)
-    cmd = ["verus", outpath, "--output-json", "--time", "--error-format=json", "--multiple-errors", "50"]
+    cmd = ["verus", outpath, "--output-json", "--time", "--error-format=json", "--multiple-errors", str(multiple_errors)]
     if rlimit:
         cmd += ["--rlimit", str(rlimit)]
     cmd += list(extra)
@@ -1580,8 +1606,13 @@ def classify(r, table, gen):
             tool.append(entry)
             continue
         cl = None
-        # prefer a clause span; non-primary (label) spans first for post/preconditions
-        for sp, o in sorted(origins, key=lambda x: x[0].get("is_primary", False)):
+        # which clause failed: the span Verus labels "failed this postcondition" / "failed precondition" names it;
+        # otherwise the primary span (invariants, assertions); other secondary spans ("at the end of the function
+        # body", "at this call") only say where.
+        def prio(x):
+            lab = (x[0].get("label") or "")
+            return 0 if "failed" in lab else (1 if x[0].get("is_primary") else 2)
+        for sp, o in sorted(origins, key=prio):
             if o[0] == "clause":
                 cl = o[1]
                 break
